@@ -75,6 +75,7 @@ void h_chain(void)
 	int r = trust_of[chain[k]];
 	ok = ok && r >= 0;
 	if (r >= 0) ok = ok && chk[r][X509_cert_ca] && link_ok[chain[k]][r] && (plc[r] < 0 || k <= plc[r]) && k <= depth;
+	if (ret == 1) V_COVER("chain accepted");
 	if (ret == 1) CHECK(ok, "accepted chain: every check passed, every link verified, anchor trusted and a CA, pathLen and depth respected");
 	/* completeness for the toolkit's own chain shape: first issuer has pathLen 0, the others enough room */
 	int shape = (k == 0) || (plc[chain[1]] == 0);
@@ -107,6 +108,7 @@ void h_chain_tlcp(void)
 	if (r >= 0) ok = ok && chk[r][X509_cert_ca] && link_ok[top][r] && (plc[r] < 0 || k <= plc[r]) && k <= depth;
 	/* the encryption certificate is issued by the same first issuer */
 	if (k >= 1) ok = ok && link_ok[chain[1]][first_issuer]; else if (r >= 0) ok = ok && link_ok[chain[1]][r];
+	if (ret == 1) V_COVER("tlcp chain accepted");
 	if (ret == 1) CHECK(ok, "accepted TLCP chain: both leaves checked under their own role, both verified by the first issuer, rest as TLS");
 	int shape = (k == 0) || (plc[chain[2]] == 0);
 	if (ok && shape) CHECK(ret == 1, "every valid TLCP chain of the toolkit's shape is accepted");
